@@ -1,3 +1,9 @@
 // Pasted into swarm/src/behaviour/external_addresses.rs (mod verif) under cfg(kani).
 #[allow(unused_imports)]
 use super::*;
+
+pub(crate) mod c12 {
+    #[allow(unused_imports)]
+    use super::super::*;
+    include!(concat!(env!("LIBP2P_VERIF"), "/units/C12/external.rs"));
+}
